@@ -71,6 +71,26 @@ def generate_sweep(idx):
     n = rng.choice([2, 2, 3])
     shared = rng.choice(corpus.T.VERSIONS)
     actors = []
+    if block % 4 == 3:
+        # memo pressure: every actor starts with the *same* date/time conversion (a contended first miss of
+        # whatever memo the helpers may keep); one of them goes on with 70 distinct conversions (enough to
+        # turn over any small bounded memo): bookkeeping that went wrong in the race shows only then
+        dt = rng.choice(['DTM', 'DT', 'TM'] if 'DTM' in corpus.T.base_datatypes(shared) else ['DT', 'TM'])
+        tok = gen.Tokens(start=block * 100, prefix='p')
+        level = rng.choice([1, 2])
+        first = {'kind': 'factory', 'dt': dt, 'value': gen.valid_literal(dt, tok, rng), 'version': shared, 'level': level}
+        seen = {first['value']}
+        rest = []
+        while len(rest) < 70:
+            v = gen.valid_literal(dt, tok, rng)
+            if v not in seen:
+                seen.add(v)
+                rest.append({'kind': 'factory', 'dt': dt, 'value': v, 'version': shared, 'level': level})
+        long_one = rng.randrange(n)
+        for a in range(n):
+            actors.append([dict(first)] + ([dict(c) for c in rest] if a == long_one else []))
+        cfg = {'mean_budget': None, 'touch_p': 0, 'order': 'threads_first', 'sweep_at': idx % SWEEP_G}
+        return {'world': 'threads', 'seed': block, 'cfg': cfg, 'actors': actors}
     for a in range(n):
         tok = gen.Tokens(start=a * 100000 + block * 100, prefix='abcd'[a])
         prog = [corpus.gen_call(rng, tok, cid='abcd'[a], kinds=SMALL_KINDS, invalid_p=0.1,
